@@ -3,6 +3,7 @@ package main
 import (
 	"fmt"
 	"go/constant"
+	"go/token"
 	"go/types"
 	"sort"
 	"strings"
@@ -202,6 +203,7 @@ func init() {
 			"(in-memory-inverse) RunningEventFilter.inner/next are written only by insert/onReorg/ensureInit/UnmarshalBinary; (no-early-success) in the state packages and the block-content helpers no success return sits inside the body of a range loop over the entries being applied or undone — a per-entry step may skip its entry (continue) or fail, but not end the whole pass early. Not decided: observational equality of the values, fork convergence."
 		c04NoEarlySuccess(c)
 		c04EverySection(c)
+		c04ReadAfterDelete(c)
 		ci := p.caps()
 		r := p.newResolver()
 		nilCfg := nilConfigTrieDB(c, "inverse-buckets")
@@ -660,6 +662,60 @@ func c03Gates(c *Ctx) {
 			}
 		}
 		c.check(found, "gates", a.pkg+"."+a.recv+"."+a.name, p.Pos(fnPos(f)), "consults the contract's deployment height", "historical accessor answers without consulting the contract's deployment height: a contract deployed later would appear to exist")
+		// … and on every path that answers: a return that may report success (incl. one that forwards a head read) is
+		// dominated by the probe; the only accepted shortcut is the storage accessors' "non-zero value proves a write"
+		reachesProbe := func(g *ssa.Function) bool {
+			if g == nil || pkgRelOf(g) != a.pkg {
+				return false
+			}
+			r := p.Reachable([]*ssa.Function{g}, func(caller, callee *ssa.Function) bool { return pkgRelOf(callee) != a.pkg })
+			for _, h := range r.Funcs() {
+				hit := false
+				allInstrs(h, func(in ssa.Instruction) {
+					if fa, ok := in.(*ssa.FieldAddr); ok && fieldName(fa.X.Type(), fa.Field) == "DeployedHeight" {
+						hit = true
+					}
+					if fl, ok := in.(*ssa.Field); ok && fieldName(fl.X.Type(), fl.Field) == "DeployedHeight" {
+						hit = true
+					}
+				})
+				for _, s := range sitesOf(h) {
+					if strings.Contains(s.CalleeName(), "DeploymentHeight") {
+						hit = true
+					}
+				}
+				if hit {
+					return true
+				}
+			}
+			return false
+		}
+		var probes []ssa.Instruction
+		for _, s := range sitesOf(f) {
+			if s.Callee != nil && s.Callee != f && (s.Callee.Name() == "checkDeployed" || s.Callee.Name() == "ContractDeployedAt" || (s.Callee.Signature.Results().Len() == 1 && reachesProbe(s.Callee))) {
+				probes = append(probes, s.Instr)
+			}
+		}
+		for i, ret := range returnsOf(f) {
+			if isErrorReturn(p, ret) {
+				continue
+			}
+			okp := false
+			for _, pr := range probes {
+				if dominatesInstr(pr, ret.Ret) {
+					okp = true
+				}
+			}
+			why := "passes the deployment probe"
+			if !okp && a.relaxed {
+				d := p.mustHoldAt(ret.Ret)
+				if nz, _ := everyDisjunctHas(d, []string{"^!", ".IsZero()"}); nz && len(d) > 0 {
+					okp = true
+					why = "a non-zero logged value proves a write at or before the block (reviewed shortcut)"
+				}
+			}
+			c.check(okp, "gates", fmt.Sprintf("%s.%s.%s: answering return #%d", a.pkg, a.recv, a.name, i+1), p.Pos(posOf(ret.Ret, f)), why, "this path answers (or forwards the head value) without the deployment probe: a contract deployed after the requested block is reported with its later state instead of not-found")
+		}
 	}
 	c.floor("gates", 8)
 }
@@ -989,5 +1045,111 @@ func c04EverySection(c *Ctx) {
 	}
 	if n < 2 {
 		c.und("every-section", "undo helpers", "", fmt.Sprintf("only %d multi-section undo helpers found", n))
+	}
+}
+
+
+// isErrorReturn: the return reports an error on every path that reaches it — its last result is a freshly built error, or a
+// value the path conditions establish to be non-nil. A forwarded callee error (`return g(..)`) is not an error return.
+func isErrorReturn(p *Prog, ret *retInfo) bool {
+	if len(ret.Results) == 0 {
+		return false
+	}
+	last := ret.Results[len(ret.Results)-1]
+	if isNilConst(last) {
+		return false
+	}
+	if definitelyNonNilErr(last) {
+		return true
+	}
+	d := p.mustHoldAt(ret.Ret)
+	if len(d) == 0 {
+		return false
+	}
+	ok, _ := everyDisjunctHas(d, []string{term(last) + " != nil"})
+	return ok
+}
+
+
+// c04ReadAfterDelete: the helpers that undo a block run with the revert's batch as their writer and — in the legacy backend —
+// an indexed view of that same batch as their reader. A step that reads a bucket which an EARLIER step of the same function
+// has already deleted through the batch therefore sees nothing (and typically treats "not found" as "nothing to do"): whatever
+// it was going to undo from that data stays behind (seeded change C04-H: the L1-message index was derived from the block's
+// transactions after they had been deleted). Decided per function of blockchain/statebackend reachable from a RevertHead
+// closure: for two distinct top-level steps s1 before s2, Delete/DeleteRange(B) ∈ effects(s1) ∧ Get/Has/Iterate(B) ∈ effects(s2).
+func c04ReadAfterDelete(c *Ctx) {
+	p := c.P
+	ci := p.caps()
+	r := p.newResolver()
+	nilCfg := nilConfigTrieDB(c, "read-after-delete")
+	roots := p.helperClosures(ci, "blockchain/statebackend")
+	seenFn := map[*ssa.Function]bool{}
+	n := 0
+	for i := range roots {
+		rt := &roots[i]
+		if rt.Closure == nil || p.InFixture(rt.Site.Pos()) || rt.Outer.Name() != "RevertHead" {
+			continue
+		}
+		reach := p.Reachable([]*ssa.Function{rt.Closure}, atomicCut(c, nilCfg))
+		for _, fn := range reach.Funcs() {
+			if seenFn[fn] || pkgRelOf(fn) != "blockchain/statebackend" || len(fn.Blocks) == 0 {
+				continue
+			}
+			seenFn[fn] = true
+			effs := p.effectsFrom(r, ci, fn, atomicCut(c, nilCfg))
+			type bySite struct {
+				del, read map[string]Eff
+			}
+			sites := map[ssa.Instruction]*bySite{}
+			var order []ssa.Instruction
+			for _, e := range effs {
+				if e.Top == nil || e.Top.Parent() != fn {
+					continue
+				}
+				bs := sites[e.Top]
+				if bs == nil {
+					bs = &bySite{map[string]Eff{}, map[string]Eff{}}
+					sites[e.Top] = bs
+					order = append(order, e.Top)
+				}
+				for _, b := range e.Buckets {
+					if strings.HasPrefix(b, "?") {
+						continue
+					}
+					switch e.Op {
+					case "Delete", "DeleteRange":
+						bs.del[b] = e
+					case "Get", "Has", "Iterate":
+						bs.read[b] = e
+					}
+				}
+			}
+			if len(order) < 2 {
+				continue
+			}
+			n++
+			bad := ""
+			var badPos token.Pos
+			for _, s1 := range order {
+				for _, s2 := range order {
+					if s1 == s2 || !dominatesInstr(s1, s2) {
+						continue
+					}
+					for b, de := range sites[s1].del {
+						if re, ok := sites[s2].read[b]; ok {
+							bad = fmt.Sprintf("bucket %s is read (%s, %s) after an earlier step of %s deleted it through the batch (%s, %s)", b, qname(re.Fn), p.Pos(re.Pos), fn.Name(), qname(de.Fn), p.Pos(de.Pos))
+							badPos = s2.Pos()
+						}
+					}
+				}
+			}
+			if !badPos.IsValid() {
+				badPos = fnPos(fn)
+			}
+			c.check(bad == "", "read-after-delete", qname(fn), p.Pos(badPos), "no step reads a bucket that an earlier step of the same function deleted in the batch", bad+": with the batch as the reader the later step finds nothing and leaves its part of the block behind")
+		}
+	}
+	if n == 0 {
+		c.und("read-after-delete", "blockchain/statebackend", "", "no multi-step helper reachable from a RevertHead closure was found")
 	}
 }
